@@ -11,10 +11,11 @@ INSITU = {"k": "music_theory or transpose or tokenisation"}
 RULE = ("complete enumeration at run time under the contracts: 15 keys x intervals -36..36 (returns a Key, tonic and scale "
         "shifted mod 12), all 15 x 73 x 73 composition pairs (additivity), every key's note set is a major scale on its "
         "tonic, all 128 x 128 pitch pairs (distance range / congruence / from_distance), get_position for 0..127. Every "
-        "domain element is a distinct case; all are non-trivial.")
+        "domain element is a distinct case; all are non-trivial. The key / scale and circle-of-fifths enumerations are repeated in "
+        "a process that has used the tables first (key guessing, transposition of sequences and bars with keys, bar splitting, token annotation).")
 PLAN = {"quick": {"cases": 0, "jobs": 2, "timeout": 600}, "thorough": {"cases": 0, "jobs": 4, "timeout": 1200}}
 FLOORS = {"transpose_key.returns_key.armed": 1095, "cof.distance_range.armed": 16384, "cof.from_distance.armed": 16384,
-          "cof.position.armed": 128, "c20.compositions": 79935, "c20.major_scale": 15}
+          "cof.position.armed": 128, "c20.compositions": 79935, "c20.major_scale": 30, "c20.table_consumers_exercised": 100}
 TONIC = {"C": 0, "G": 7, "D": 2, "A": 9, "E": 4, "B": 11, "F#": 6, "C#": 1, "F": 5, "Bb": 10, "Eb": 3, "Ab": 8, "Db": 1,
          "Gb": 6, "Cb": 11}
 
@@ -88,5 +89,42 @@ def _cof(ctx):
             "samples": [{"a": 60, "b": 66, "distance": C.get_distance(60, 66), "from_distance": C.from_distance(60, C.get_distance(60, 66))}]}
 
 
+def _after_use(ctx):
+    """The tables are module-level objects shared by the whole process: after the library has USED them (key guessing, loading
+    key signatures, transposing sequences and bars with keys, annotating tokens) they must still say what they said before."""
+    import random
+    from vmon.monitors import LOG
+    from scoda.elements.bar import Bar
+    from scoda.misc.music_theory import Key
+    from scoda.sequences.sequence import Sequence
+    from scoda.tokenisation.notelike_tokenisation import MultiTrackLargeVocabularyNotelikeTokeniser as Tok
+    rnd = random.Random(f"{ctx.seed}:C20:after_use")
+    used = 0
+    for k in range(60):
+        notes = gen.wf_notes(rnd, rnd.randint(1, 8), chans=(0,), pitches=tuple(rnd.sample(range(40, 90), 5)), tmax=90, lmin=2, lmax=24)
+        extra = [["ks", 0, rnd.choice(gen.KEYS)]] if k % 3 == 0 else ([["ks", 24, rnd.choice(gen.KEYS)]] if k % 3 == 1 else [])
+        s = gen.build_seq({"notes": notes, "extra": extra, "pad": 96, "start": rnd.choice(["abs", "rel", "both"])})
+        try:
+            s.rel.get_key_signature_guess()
+            used += 1
+        except Exception as e:   # a crash here is not C20's business, the state of the tables afterwards is
+            LOG.n(f"c20.observed.key_guess_raises.{type(e).__name__}")
+        s.transpose(rnd.choice([1, -1, 5, 7, 12, -13]))
+        b = Bar(s.copy(), 8, 4, Key(rnd.choice(gen.KEYS)))    # 192 ticks: long enough for every generated sequence
+        b.transpose(rnd.choice([2, -2, 6]))
+        for q in Sequence.sequences_split_bars([s.copy()], 0)[0]:
+            q.sequence.rel.get_key_signature_guess()
+            used += 1
+    tok = Tok(num_tracks=1)
+    tok.get_info(tok.tokenise([gen.build_seq({"notes": [[0, 60 + j, 12 * j, 12, 80] for j in range(8)], "extra": [], "pad": 96})]))
+    LOG.n("c20.table_consumers_exercised", used)
+    a = _keys(ctx)
+    c = _cof(ctx)
+    fails = [dict(f, case=dict(f.get("case", {}), phase="after_use", after="key guessing / transposition / bar splitting / annotation"))
+             for f in a["fails"] + c["fails"]]
+    return {"evaluations": a["evaluations"] + c["evaluations"], "hashes": [gen.chash(["after_use", a["evaluations"], c["evaluations"]])],
+            "fails": fails, "shapes": {"after_use": used}}
+
+
 def phases(tier):
-    return [("keys", _keys), ("compose", _compose), ("cof", _cof)]
+    return [("keys", _keys), ("compose", _compose), ("cof", _cof), ("after_use", _after_use)]
